@@ -28,7 +28,7 @@ func runStep(m, rl, wl, p, pc int, pre []ins) (res stepResult) {
 			res.pan = fmt.Sprint(e)
 		}
 	}()
-	cfg := gmars.SimulatorConfig{Mode: gmars.ICWS94, CoreSize: gmars.Address(m), Processes: gmars.Address(p),
+	cfg := gmars.SimulatorConfig{Mode: gmars.SimulatorMode((m + rl + wl + p + pc) % 3), CoreSize: gmars.Address(m), Processes: gmars.Address(p),
 		Cycles: 1, ReadLimit: gmars.Address(rl), WriteLimit: gmars.Address(wl), Length: gmars.Address(m), Distance: 0}
 	sim, err := gmars.NewSimulator(cfg)
 	if err != nil {
